@@ -555,7 +555,7 @@ func (c *c18Case) exec(op c18Op) (string, string) {
 	fa, app := c.e.fa, c.e.fa.App()
 	t := op.t
 	switch op.kind {
-	case "fund", "gift", "setfg", "setfunders", "setcontracts":
+	case "fund", "gift", "setfg", "setfunders", "setcontracts", "reimport":
 		line, fn := c.hookFn(op)
 		res := c.hook(t, fn)
 		if op.kind == "gift" && res == "ok" {
@@ -670,6 +670,12 @@ func (c *c18Case) hookFn(op c18Op) (string, func(ctx sdk.Context) error) {
 		return line, func(ctx sdk.Context) error {
 			return app.BankKeeper.SendCoins(ctx, c.accts[op.signer].Addr, c.e.modAddr(),
 				sdk.Coins{sdk.Coin{Denom: c18Denoms[op.denom], Amount: sdkmath.NewIntFromBigInt(op.amt)}})
+		}
+	case "reimport":
+		// the chain is exported and started again from the export (the paloma module): what is NOT configured must still
+		// be not configured afterwards, what is must still be there
+		return fmt.Sprintf("reimport %d", t), func(ctx sdk.Context) error {
+			return c.e.fa.ReimportModuleCtx(ctx, "paloma", "paloma-store")
 		}
 	case "setfg":
 		line := fmt.Sprintf("setfg %d %d", t, op.client)
@@ -1384,6 +1390,10 @@ func (c *c18Case) genSend() c18Op {
 }
 
 func (c *c18Case) genConfig() c18Op {
+	if c.rnd(4) == 0 {
+		c.e.r.Stat("op.reimport")
+		return c18Op{kind: "reimport", t: c.nextT()}
+	}
 	switch c.rnd(4) {
 	case 0:
 		return c18Op{kind: "setfg", t: c.nextT(), client: c.anyAddr()}
